@@ -1,4 +1,5 @@
 -- Root of the `Discv5Model` library: models, helper proofs and property theorems.
 import Discv5Model.Props.C05
+import Discv5Model.Props.C06
 import Discv5Model.Props.C15
 import Discv5Model.Props.C17
